@@ -191,3 +191,178 @@ def rule_g5(ctx, rule="G5.name-table"):
         # not a violation: a refactor may legitimately reorganise these tables; the X-rules still see every emitted name
         ctx.note(f"G5: documented name tables not recognised in the generator source: {sorted(missing)}")
     ctx.extra["G5_tables_recognised"] = sorted(seen)
+
+
+# ------------------------------------------------------------------ templates (G1, G2)
+
+TEMPLATE_MACROS = {"quote", "parse_quote", "quote_spanned", "parse_quote_spanned"}
+FRAMEWORK_CRATES = {"sylvia", "cosmwasm_std", "cosmwasm_schema", "schemars", "serde", "serde_json_wasm", "serde_cw_value", "cw_multi_test",
+                    "cw_utils", "anyhow", "cw_std", "cw_schema", "serde_value", "serde_json", "konst", "sylvia_derive"}
+
+
+def templates():
+    """[(relfile, fn qualified name, macro name, token tree, line)] for every template in the generator"""
+    if "templates" in _cache:
+        return _cache["templates"]
+    out = []
+    for rel, ast in derive_asts().items():
+        for qn, fn in all_fns(ast):
+            for n in A.find_all(fn, lambda n: isinstance(n, dict) and n.get("k") == "macro" and n.get("path", "").split("::")[-1] in TEMPLATE_MACROS):
+                out.append((rel, qn, n["path"].split("::")[-1], n["tt"], n["ln"]))
+    _cache["templates"] = out
+    return out
+
+
+def flat_tokens(tt):
+    """linear token list with group delimiters as tokens; each: dict(s, t, ln, j)"""
+    out = []
+    for t in tt:
+        if t["t"] == "group":
+            close = {"(": ")", "[": "]", "{": "}", "": ""}[t["d"]]
+            if t["d"]:
+                out.append({"s": t["d"], "t": "open", "ln": t["ln"]})
+            out.extend(flat_tokens(t["c"]))
+            if close:
+                out.append({"s": close, "t": "close", "ln": t["ln"]})
+        else:
+            out.append(t)
+    return out
+
+
+def is_colon2(toks, i):
+    return i + 1 < len(toks) and toks[i]["t"] == "punct" and toks[i]["s"] == ":" and toks[i + 1]["t"] == "punct" and toks[i + 1]["s"] == ":" and toks[i].get("j")
+
+
+def rule_g1(ctx, rule="G1.literal-crate-path"):
+    n = 0
+    for rel, qn, mac, tt, ln in templates():
+        toks = flat_tokens(tt)
+        n += 1
+        ctx.inst(rule)
+        for i, t in enumerate(toks):
+            if t["t"] == "ident" and t["s"] in FRAMEWORK_CRATES and is_colon2(toks, i + 1):
+                # a later segment of a longer path?  prev two tokens are `::` and before them an ident / interpolation / `>`
+                later = False
+                if i >= 2 and is_colon2(toks, i - 2):
+                    if i >= 3 and (toks[i - 3]["t"] == "ident" or toks[i - 3]["s"] in (">", ")")):
+                        later = True
+                if later:
+                    continue
+                # directly interpolated prefix `# sylvia :: cw_std` has the ident `sylvia` preceded by '#': that is an interpolation, not a literal
+                if i >= 1 and toks[i - 1]["t"] == "punct" and toks[i - 1]["s"] == "#":
+                    continue
+                ctx.violation(rule, [rel, qn, t["s"], _ctx_snippet(toks, i)], f"{rel}:{t['ln']} fn {qn}", "framework paths only through the interpolated crate name (#sylvia ::...)",
+                              f"literal `{_ctx_snippet(toks, i)}` in a {mac}! template",
+                              "generated code names the framework through a literal crate path: a renamed dependency does not compile")
+            if t["t"] == "lit" and t["s"].startswith('"'):
+                s = t["s"].replace(" ", "")
+                for c in ("sylvia::", "cosmwasm_std::", "cosmwasm_schema::"):
+                    if c in s and "crate=" not in s:
+                        ctx.violation(rule, [rel, qn, "string", c], f"{rel}:{t['ln']} fn {qn}", "no literal crate path inside emitted string literals", t["s"][:80],
+                                      "a derive helper `crate = \"..\"` (or similar) value is spelled literally")
+    return n
+
+
+def _ctx_snippet(toks, i):
+    return "".join(x["s"] for x in toks[i:i + 6])
+
+
+def generics_lists(tt):
+    """yield (kind, [param token slices]) for `impl<..>`, `fn name<..>`, `trait Name<..>` ... at every nesting level of a token tree.
+    Groups are kept as single tokens inside a slice."""
+    toks = tt
+    n = len(toks)
+    i = 0
+    while i < n:
+        t = toks[i]
+        if t["t"] == "group":
+            yield from generics_lists(t["c"])
+            i += 1
+            continue
+        start = None
+        kind = None
+        if t["t"] == "ident" and t["s"] == "impl" and i + 1 < n and toks[i + 1].get("s") == "<":
+            start, kind = i + 1, "impl"
+        elif t["t"] == "ident" and t["s"] in ("fn", "trait", "struct", "enum", "type"):
+            # name: ident | # ident
+            j = i + 1
+            if j < n and toks[j].get("s") == "#":
+                j += 1
+            if j < n and toks[j]["t"] == "ident" and j + 1 < n and toks[j + 1].get("s") == "<":
+                start, kind = j + 1, t["s"]
+        if start is not None:
+            depth = 0
+            j = start
+            params = []
+            cur = []
+            while j < n:
+                tok = toks[j]
+                s = tok.get("s")
+                if tok["t"] == "punct" and s == "<":
+                    depth += 1
+                    if depth == 1:
+                        j += 1
+                        continue
+                elif tok["t"] == "punct" and s == ">" and not (j > 0 and toks[j - 1].get("s") == "-"):
+                    depth -= 1
+                    if depth == 0:
+                        if cur:
+                            params.append(cur)
+                        break
+                elif depth == 1 and tok["t"] == "punct" and s == ",":
+                    params.append(cur)
+                    cur = []
+                    j += 1
+                    continue
+                cur.append(tok)
+                j += 1
+            yield kind, params
+            i = start + 1
+            continue
+        i += 1
+
+
+def strip_interpolations(p):
+    """drop leading `#name` / `#( .. )*` / `#( .. ),*` interpolations of a parameter slice; returns (rest, had_interpolation)"""
+    had = False
+    while p:
+        if p[0].get("s") == "#" and len(p) >= 2 and p[1]["t"] == "ident":
+            p = p[2:]
+            had = True
+        elif p[0].get("s") == "#" and len(p) >= 2 and p[1]["t"] == "group":
+            k = 2
+            while k < len(p) and p[k]["t"] == "punct" and p[k]["s"] != "*":
+                k += 1
+            p = p[k + 1:] if k < len(p) else []
+            had = True
+        else:
+            break
+    return p, had
+
+
+def rule_g2(ctx, rule="G2.helper-generic-names"):
+    """No literally spelled single-upper-case-letter type parameter in a template whose scope contains user generics."""
+    n = 0
+    for rel, qn, mac, tt, ln in templates():
+        lists = list(generics_lists(tt))
+        if not lists:
+            continue
+        # user generics are in scope of this template when any generics list of it interpolates something
+        interp_any = False
+        for kind, params in lists:
+            for p in params:
+                if strip_interpolations(p)[1] or any(tok.get("s") == "#" for tok in p):
+                    interp_any = True
+        for kind, params in lists:
+            n += 1
+            ctx.inst(rule)
+            for p in params:
+                rest, _ = strip_interpolations(p)
+                if not rest:
+                    continue
+                first = rest[0]
+                if first["t"] == "ident" and len(first["s"]) == 1 and first["s"].isupper() and interp_any:
+                    ctx.violation(rule, [rel, qn, kind, first["s"]], f"{rel}:{first['ln']} fn {qn}",
+                                  "helper type parameters with names a user would not pick (e.g. `SvQuerierC`)", f"`{kind}<.. {first['s']} ..>` next to interpolated user generics",
+                                  "a helper type parameter named by a single letter collides with a user's generic of the same name (E0403)")
+    return n
